@@ -15,6 +15,7 @@ import (
 	"regexp/syntax"
 	"runtime"
 	"sort"
+	"strconv"
 	"strings"
 	"unicode"
 
@@ -243,6 +244,17 @@ func ruleReserved(c *Ctx) []Obligation {
 	}
 	// shape: pure membership test
 	shapeOK, why := membershipShape(a)
+	if !shapeOK {
+		// not a table scan: evaluate the predicate path by path for every oracle word
+		words := append(goKeywords(), types.Universe.Names()...)
+		if res, ok, w2 := c.reservedByPaths(fn, words); ok {
+			members = res
+			shapeOK = true
+			tables = []string{"(comparisons with constants, decided path by path)"}
+		} else {
+			why += "; path evaluation: " + w2
+		}
+	}
 	if !shapeOK {
 		o.undecided(fname(fn), "membership-test shape", fn.Pos(), "the predicate is not recognised as a pure membership test over its table: %s", why)
 	} else {
@@ -1226,4 +1238,83 @@ func keptRunes(re *syntax.Regexp) ([][2]rune, bool) {
 		kept = append(kept, [2]rune{next, unicode.MaxRune})
 	}
 	return kept, true
+}
+
+// reservedByPaths decides IsReservedWord(w) for each given word by enumerating the predicate's paths
+// (helpers inlined): w is reserved iff every path outcome consistent with p0 == w returns true. Only
+// comparisons of the parameter with string constants may appear as facts; anything else is undecided.
+func (c *Ctx) reservedByPaths(fn *ssa.Function, words []string) (map[string]bool, bool, string) {
+	paths, trunc := c.Paths(fn, PXConfig{MaxVisits: 2})
+	if trunc || len(paths) == 0 {
+		return nil, false, fmt.Sprintf("%d paths, truncated %v", len(paths), trunc)
+	}
+	type outcome struct {
+		eqs map[string]bool // constant -> must equal / must differ
+		val bool
+	}
+	var outs []outcome
+	for _, p := range paths {
+		if p.End != "return" {
+			return nil, false, "a path ends in " + p.End
+		}
+		bo, ok := boolOutcomes(p)
+		if !ok {
+			return nil, false, fmt.Sprintf("result %v is not decided", p.Ret)
+		}
+		for _, e := range p.Events {
+			if e.Kind != "funcvalue" {
+				return nil, false, "effect or opaque call " + e.Kind + " " + e.Name
+			}
+		}
+		for _, oc := range bo {
+			out := outcome{eqs: map[string]bool{}, val: oc.Val}
+			for atom, pol := range oc.F {
+				w, ok := eqConstWithParam(atom)
+				if !ok {
+					return nil, false, "condition " + atom
+				}
+				out.eqs[w] = pol
+			}
+			outs = append(outs, out)
+		}
+	}
+	res := map[string]bool{}
+	for _, w := range words {
+		n, allTrue := 0, true
+		for _, oc := range outs {
+			consistent := true
+			for k, pol := range oc.eqs {
+				if (k == w) != pol {
+					consistent = false
+				}
+			}
+			if consistent {
+				n++
+				if !oc.val {
+					allTrue = false
+				}
+			}
+		}
+		res[w] = n > 0 && allTrue
+	}
+	return res, true, ""
+}
+
+// eqConstWithParam: atom is eq("const",p0) (either order).
+func eqConstWithParam(atom string) (string, bool) {
+	if !strings.HasPrefix(atom, "eq(") || !strings.HasSuffix(atom, ")") {
+		return "", false
+	}
+	body := atom[3 : len(atom)-1]
+	var q string
+	switch {
+	case strings.HasSuffix(body, ",p0"):
+		q = strings.TrimSuffix(body, ",p0")
+	case strings.HasPrefix(body, "p0,"):
+		q = strings.TrimPrefix(body, "p0,")
+	default:
+		return "", false
+	}
+	s, err := strconv.Unquote(q)
+	return s, err == nil
 }
